@@ -4,6 +4,7 @@ import LP.Props.C20HeapOrder
 import LP.Props.C20HSet
 import LP.Props.C20HSetProbe
 import LP.Props.C20HSetRemove
+import LP.Props.C20HSetRefine
 #print axioms LP.SpecSet.C20_spec_insert
 #print axioms LP.SpecSet.C20_spec_remove
 #print axioms LP.SpecSet.C20_spec_size
@@ -47,3 +48,8 @@ import LP.Props.C20HSetRemove
 #print axioms LP.HSet.sinv_move
 #print axioms LP.HSet.shiftBack_pc
 #print axioms LP.HSet.remove_good
+#print axioms LP.HSet.step_ok
+#print axioms LP.HSet.C20_hset_refines
+#print axioms LP.HSet.C20_hset_answers
+#print axioms LP.HSet.C20_hset_contains
+#print axioms LP.HSet.C20_hset_enumeration
